@@ -83,7 +83,50 @@ def _mk_matcher_item():
             for n in names_pool:
                 h.check(r[1].match(n) == want(n), 'dataflows/helpers/resource_matcher.py::ResourceMatcher.match',
                         (sel, names, n), want(n), r[1].match(n))
-    return Item('ResourceMatcher', symbolic, [('differential', native)], 'dataflows/helpers/resource_matcher.py::ResourceMatcher.match')
+    def replay(h, cex, obligation):
+        """the solver's counterexample of a failed matcher obligation: selector, package (resource names by position), name"""
+        import re as _re
+        from contracts import replayers as R
+        from dataflows.helpers.resource_matcher import ResourceMatcher
+        from datapackage import Package
+        m = _re.search(r'\[(none|list|str|int),(package|dict)\]', obligation)
+        if not m:
+            return 'not-concretisable'
+        kind, dpform = m.groups()
+        name = R.scalar(cex, 'name', '')
+        nres = R.scalar(cex, 'pkg.nres', 0) or 0
+        if not isinstance(nres, int) or nres > 40:
+            return 'not-concretisable'
+        resname, _ = R.func(cex, 'resname')
+        names = [resname(i) for i in range(nres)]
+        if any(not isinstance(n, str) for n in names):
+            names = ['r%d' % i if not isinstance(n, str) else n for i, n in enumerate(names)]
+        desc = {'resources': [{'name': n, 'path': 'p%d.csv' % i} for i, n in enumerate(names)]}
+        dp = desc if dpform == 'dict' else Package(desc)
+        if kind == 'none':
+            sel, want = None, True
+        elif kind == 'list':
+            sel = [x for x in (R.scalar(cex, 'sel') or []) if isinstance(x, str)]
+            want = name in sel
+        elif kind == 'str':
+            sel = R.scalar(cex, 'selpat', '')
+            try:
+                want = _re.fullmatch(sel, name) is not None
+            except _re.error:
+                return 'not-concretisable'
+        else:
+            sel = R.scalar(cex, 'selidx', 0)
+            if not (-nres <= sel < nres):
+                r = h.run(lambda: ResourceMatcher(sel, dp))
+                h.check(r[0] == 'exc' and r[1] == 'IndexError', 'dataflows/helpers/resource_matcher.py::ResourceMatcher.__init__',
+                        dict(selector=sel, names=names), 'IndexError', r[:2])
+                return
+            want = name == names[sel]
+        r = h.run(lambda: ResourceMatcher(sel, dp).match(name))
+        h.check(r[0] == 'ok' and bool(r[1]) == want, 'dataflows/helpers/resource_matcher.py::ResourceMatcher.match',
+                dict(selector=sel, resource_names=names, name=name, package_given_as=dpform), want, r[:2])
+    return Item('ResourceMatcher', symbolic, [('differential', native)], 'dataflows/helpers/resource_matcher.py::ResourceMatcher.match',
+                replay=replay)
 
 
 def _closure_item(name, relfile, maker, inner, dotted, maker_args, matched_ok, stream_loop, pkg_loop=None, kinds=None,
@@ -406,6 +449,58 @@ def nat_pipeline(h):
                     ref[1].get(n), got[1].get(n), note='non-selected resource %r changed' % n)
 
 
+def nat_whole_resource_steps(h):
+    """bounded, deterministic: the two steps that remove / merge WHOLE resources, for selections with gaps, in every selector form:
+    the step either refuses the selection, or every non-selected resource comes out with its own descriptor and its own rows (and
+    the target of concatenate holds exactly the rows of the selected ones, in order)"""
+    import re
+    from dataflows import Flow, update_resource, delete_resource, concatenate
+    layouts = [['a', 'b', 'c'], ['y2019', 'notes', 'y2020'], ['res_1', 'res', 'res_12', 'z'], ['p', 'q', 'p2', 'r', 'p3']]
+    for names in layouts:
+        data = [[dict(v=10 * k + j, t='%s%d' % (n, j)) for j in range(2 + k % 2)] for k, n in enumerate(names)]
+        sels = [[names[0], names[2]], [names[2], names[0]], re.escape(names[0]) + '|' + re.escape(names[2]), names[0][0] + '.*',
+                [names[0], names[1]], [names[1]], 1, -1, None, [names[-1], names[0]]]
+
+        def run(extra):
+            flow = Flow(*[x for d, n in zip(data, names) for x in ([dict(r) for r in d], update_resource(-1, name=n))], *extra)
+            res, dp, _ = flow.results()
+            return [(r['name'], r, rows) for r, rows in zip(dp.descriptor['resources'], res)]
+        ref = {n: (r, rows) for n, r, rows in run([])}
+        for sel in sels:
+            if sel is None:
+                selected = list(names)
+            elif isinstance(sel, list):
+                selected = [n for n in names if n in sel]
+            elif isinstance(sel, int):
+                selected = [names[sel]]
+            else:
+                selected = [n for n in names if re.fullmatch(sel, n)]
+            for pname in ('concatenate', 'delete_resource'):
+                step = concatenate({'v': [], 't': []}, dict(name='merged', path='merged.csv'), resources=sel) if pname == 'concatenate' \
+                    else delete_resource(sel)
+                got = h.run(lambda: run([step]))
+                if got[0] != 'ok':
+                    cause = getattr(got[2], 'cause', got[2])
+                    h.check(isinstance(cause, AssertionError), P + pname + '.py', (pname, sel, names), 'runs, or refuses the selection',
+                            (got[1], str(cause)[:200]))
+                    continue
+                out = {n: (r, rows) for n, r, rows in got[1]}
+                order = [n for n, _, _ in got[1]]
+                for n in names:
+                    if n in selected:
+                        h.check(n not in out or pname == 'concatenate' and n == 'merged', P + pname + '.py', (pname, sel, names, n),
+                                'selected resource gone', order)
+                    else:
+                        h.check(n in out and out[n] == ref[n], P + pname + '.py', (pname, sel, names, n), ref[n][1], out.get(n, (None, None))[1],
+                                note='non-selected resource %r changed' % n)
+                if pname == 'concatenate' and selected:
+                    want = [dict(v=r['v'], t=r['t']) for n in selected for r in ref[n][1]]
+                    h.check('merged' in out and out['merged'][1] == want, P + 'concatenate.py::concatenate.func', (sel, names), want,
+                            out.get('merged', (None, None))[1])
+                h.check([n for n in order if n != 'merged'] == [n for n in names if n not in selected], P + pname + '.py', (pname, sel, names),
+                        'the other resources keep their order', order)
+
+
 nat_pipeline.shards = 6
 
 
@@ -475,7 +570,7 @@ def _items():
         return [], dict(resources=sel, header_print=_uf('header_print'), table_print=_uf('table_print'))
     items.append(_closure_item('printer.step', 'printer.py', 'printer', 'step', 'dataflows.processors.printer', pr_args,
                                gen_of({'func'}), 'step#L0'))
-    items.append(Item('pipeline', None, [('frame-differential', nat_pipeline)], None))
+    items.append(Item('pipeline', None, [('frame-differential', nat_pipeline), ('whole-resource-steps', nat_whole_resource_steps)], None))
     from contracts import natives as NAT
     items.append(Item('load.pair', None, [('sequential-source-selectors', NAT.nat_load_pair_selectors)],
                       P + 'load.py::load.safe_process_datapackage'))
